@@ -89,6 +89,11 @@ func VerifMain() {
 	)
 	flag.Parse()
 	vfProp = *prop
+	if *bytex == "c12" {
+		vfQuietLogger()
+		vbC12Main(*shard, *nshards, *tier)
+		return
+	}
 	if *bytex == "c04" {
 		vfQuietLogger()
 		vbC04Main(*shard, *nshards, *tier, *scn)
